@@ -113,6 +113,11 @@ CLAIMED = {
                   'every dump line outside the faulted field with the fault-free document, and the path of every diagnostic with the faulted label; declaration blocks with one truncated / mutated declaration must keep all earlier declarations.',
              design='4/C16',
              note='The upper half (a failed block leaves nothing behind) is refuted on the pinned tree: known findings C16-frame-leak and C16-stray-fragment-location. The "CSP and IO synchronisations cannot be mixed" diagnostic relates two labels and is not counted as stray.'),
+ 'C07': dict(technique='Coq proof that the frame / name-to-last-index map / parent-chain implementation computes the textbook binding rule on every text (any nesting, any redeclarations); correspondence of real bindings (name@frame:type) with the extracted specification on generated multi-level models',
+             text='C07_resolve_is_binds: for every tree of declarations, uses and nested scopes, the builder\'s walk (push a frame per scope, add_symbol, resolve through the map of the frame then the parent chain) gives each use the nearest preceding declaration of its name in the nearest enclosing scope that has one, and none otherwise (C07_nearest, C07_unknown_iff_undeclared spell the rule out; C07_frames_balanced). '
+                  'Tied by generated models declaring three names at up to ten scope kinds with types that identify the declaration, uses before / after every declaration, and comparing each use\'s binding read from the document with the extracted Coq specification; Unknown_identifier diagnostics must match the unbound uses.',
+             design='4/C07',
+             note='Process-qualified names in queries (expr_dot with argument substitution) are not modelled or generated. On recovered parses the leaked binder frame (C16-frame-leak) changes bindings; C07 generates fault-free texts (apart from duplicate definitions and unknown names).'),
 }
 NOT_YET = 'check not built yet in this revision (work in progress, see DESIGN.md section 7 staging)'
 m = dict(version=1, setup_cmd='tools/setup.sh',
